@@ -236,6 +236,55 @@ func genTokens(repo string) (string, error) {
 	}
 	sb.WriteString("].\n")
 
+	// maxValueDepth in parser.go
+	_, pf0, err := gen.ParseFile(filepath.Join(dir, "parser.go"))
+	if err != nil {
+		return "", err
+	}
+	depth := ""
+	for _, d := range pf0.Decls {
+		gd, ok := d.(*ast.GenDecl)
+		if !ok || gd.Tok != token.CONST {
+			continue
+		}
+		for _, sp := range gd.Specs {
+			vs := sp.(*ast.ValueSpec)
+			for i, n := range vs.Names {
+				if n.Name == "maxValueDepth" && i < len(vs.Values) {
+					if bl, ok := vs.Values[i].(*ast.BasicLit); ok && bl.Kind == token.INT {
+						depth = bl.Value
+					}
+				}
+			}
+		}
+	}
+	if depth == "" {
+		return "", fmt.Errorf("parser.go: const maxValueDepth (integer literal) not found")
+	}
+	fmt.Fprintf(&sb, "(* parser.go: const maxValueDepth *)\nDefinition max_value_depth : N := %s.\n", depth)
+	// every call of popValue inside popValue must be guarded by the depth check: count recursive calls and depth tests
+	rec, guard := 0, 0
+	for _, d := range pf0.Decls {
+		fd, ok := d.(*ast.FuncDecl)
+		if !ok || fd.Name.Name != "popValue" {
+			continue
+		}
+		ast.Inspect(fd.Body, func(n ast.Node) bool {
+			switch x := n.(type) {
+			case *ast.CallExpr:
+				if se, ok := x.Fun.(*ast.SelectorExpr); ok && se.Sel.Name == "popValue" {
+					rec++
+				}
+			case *ast.BinaryExpr:
+				if id, ok := x.Y.(*ast.Ident); ok && id.Name == "maxValueDepth" {
+					guard++
+				}
+			}
+			return true
+		})
+	}
+	fmt.Fprintf(&sb, "(* popValue: recursive calls, comparisons against maxValueDepth *)\nDefinition pop_value_recursive_calls : N := %d.\nDefinition pop_value_depth_guards : N := %d.\n", rec, guard)
+
 	sb.WriteString("(* explicit panic( calls per anchored file: (file, enclosing function) *)\n")
 	sb.WriteString("Definition panic_sites : list (string * string) := [")
 	firstP := true
